@@ -209,20 +209,22 @@ def run(case):
                     dw.save(gw_s)
                     stale_bytes = scratch.get(path)
                     dw.use(fs)
-                    if "bak" in cfg["prior"]:
-                        fs.put(bak, stale_bytes)
-                    if "tmp" in cfg["prior"]:
-                        # left behind by an earlier interrupted save: a torn short one, or a complete
-                        # file of a (then) larger state
-                        if cfg.get("long_tmp"):
-                            fs.put(tmp, stale_bytes + stale_bytes[len(stale_bytes) // 3:] * 3)
-                        else:
-                            fs.put(tmp, stale_bytes[: max(1, len(stale_bytes) // 2)])
                 dw.feed(gw_a, case["old"])
                 status, exc = dw.save(gw_a)
                 if status != "ok":
                     raise _PlainSaveFailed("saving the old state (no fault injected)", status, exc)
                 s_old = diskutil.proj(gw_a)
+                # the stale files are put next to the good file AFTER it was written (whatever the save of the old state
+                # does with left-overs it finds must not decide whether the prior configuration exists)
+                if "bak" in cfg["prior"]:
+                    fs.put(bak, stale_bytes)
+                if "tmp" in cfg["prior"]:
+                    # left behind by an earlier interrupted save: a torn short one, or a complete
+                    # file of a (then) larger state
+                    if cfg.get("long_tmp"):
+                        fs.put(tmp, stale_bytes + stale_bytes[len(stale_bytes) // 3:] * 3)
+                    else:
+                        fs.put(tmp, stale_bytes[: max(1, len(stale_bytes) // 2)])
                 fs.sync_all()
             else:
                 gw_a.tasks.persistence.need_save = False
